@@ -12,9 +12,11 @@ CLAIMS = {'C03': {'text': 'Hazards of the geometry/container layer are enumerate
                  'the dominating guard / chunk loop leaves), precision tables without holes, '
                  'target-feature closure of dispatcher arms; in the thorough tier also NEON/WASM '
                  'configurations and type-level witnesses (unsafe set_cpu_extensions, sealed '
-                 'InnerPixel, private internals). Does NOT decide in-kernel index bounds, '
-                 'accumulator ranges or allocation failure; UNDECIDED obligations are listed in '
-                 'the evidence and are not proofs.',
+                 'InnerPixel, private internals). A scratch Vec that is sliced after a conditional '
+                 'resize is grown under len(v) < n for the same n (a capacity or emptiness test '
+                 'leaves it shorter than the slice on a reused Resizer). Does NOT decide in-kernel '
+                 'index bounds, accumulator ranges or allocation failure; UNDECIDED obligations '
+                 'are listed in the evidence and are not proofs.',
          'note': 'Free-atom premise: arguments of the safe API are unconstrained and independent '
                  'of object state; user ImageView impls honour the unsafe trait contract. 32-bit '
                  'usize (wasm) arithmetic is informational only.',
@@ -47,8 +49,11 @@ CLAIMS = {'C03': {'text': 'Hazards of the geometry/container layer are enumerate
                  'cropped views hand out only rows top+start.. limited by height-start and columns '
                  '[left, left+width).; where do_convolution falls back to the copy routine and '
                  'ignores its result, the conditions of that arm establish the exact equalities '
-                 "the copy needs (so it cannot fail silently). Does NOT decide that a kernel's "
-                 'inner column loops visit every column.',
+                 'the copy needs (so it cannot fail silently). The f32 vertical x86 helpers '
+                 'generic over the number of accumulators write SUMS_COUNT * lanes components '
+                 'through a raw pointer: every call site passes a chunk of exactly that many '
+                 "components. Does NOT decide that a kernel's inner column loops visit every "
+                 'column.',
          'note': 'Leaf write event = ImageViewMut::{iter_rows_mut,iter_N_rows_mut,split_by_*_mut}; '
                  'what a kernel does with the rows is not analysed. Zero-size guards are '
                  'recognised as comparisons of width()/height()/crop fields with 0.',
@@ -75,8 +80,14 @@ CLAIMS = {'C03': {'text': 'Hazards of the geometry/container layer are enumerate
                  "result byte i comes from pixel i // size and its own component (and that pixel's "
                  "alpha), alpha bytes are the argument's (provenance tags through shuffles, masks, "
                  'packs, blends); two-image and in-place variants of the 16-bit division use the '
-                 'same primitive family (float quotient vs. fixed-point reciprocal). Does NOT '
-                 'decide faithfulness of the reciprocal tables nor the float paths.',
+                 'same primitive family (float quotient vs. fixed-point reciprocal). The only '
+                 'pixels a division sets to colour 0 are those with alpha = 0: every '
+                 'data-dependent branch of the portable divide routines and every comparison '
+                 'intrinsic of the SIMD divide primitives is an exact test against zero (an '
+                 'ordering test or another constant on floating-point alpha is a violation). '
+                 'RECIP_ALPHA[0] = 0 and every entry is within half a unit of 2^k * 255 / a '
+                 '(compile-time table contents). Does NOT decide faithfulness of the reciprocal '
+                 'tables nor the float paths.',
          'note': 'Intrinsic classification tables (saturating / arithmetic / load) are in '
                  'fircheck/engines/deps.py; lane bounds assume alpha >= 1 (alpha == 0 is the '
                  "kernels' documented indefinite-value path).",
@@ -88,11 +99,13 @@ CLAIMS = {'C03': {'text': 'Hazards of the geometry/container layer are enumerate
                  'destination of a must-write operation before any read (dominance); '
                  'get_temp_image_from_buffer sizes count*size + size() bytes, grows only, uses the '
                  'aligned middle part and slices exactly width*height pixels for an image of the '
-                 "same dimensions; the premultiply scratch has the multiplied view's size. Does "
-                 "NOT decide that writers fill every pixel (C05's kernel-internal part) nor "
-                 'compares runs; no branch on the resize path depends on len()/capacity() of a '
-                 'scratch buffer except the grow test (a reused Resizer takes the same code path '
-                 'as a fresh one).',
+                 "same dimensions; the premultiply scratch has the multiplied view's size. "
+                 'Resizer::clone carries every non-buffer field over from self (the back-end is '
+                 'kept both in cpu_extensions and in mul_div); the scratch buffer is grown under a '
+                 'test of its length, never its capacity. Does NOT decide that writers fill every '
+                 "pixel (C05's kernel-internal part) nor compares runs; no branch on the resize "
+                 'path depends on len()/capacity() of a scratch buffer except the grow test (a '
+                 'reused Resizer takes the same code path as a fresh one).',
          'note': 'Writer = callee with a must-write summary (C05) on the scratch parameter.',
          'technique': 'static analysis: write-before-read typestate via dominators + must-write '
                       'summaries; structural matching of the sizing expression (MIR)'},
@@ -105,8 +118,10 @@ CLAIMS = {'C03': {'text': 'Hazards of the geometry/container layer are enumerate
                  'set of AlphaMulDiv impls.; the premultiply covers the whole source view and '
                  'precedes every read of the scratch image; no SIMD multiply/divide primitive '
                  'returns its input early under a predicate that holds as soon as one lane matches '
-                 '(any-lane fast path). Does NOT decide the metamorphic equalities (independence '
-                 'of colours under alpha 0).',
+                 '(any-lane fast path). The branch of a divide routine that overwrites the whole '
+                 'pixel (alpha included) is taken only under an exact zero test of alpha, so the '
+                 'resampled alpha channel leaves the division unchanged. Does NOT decide the '
+                 'metamorphic equalities (independence of colours under alpha 0).',
          'note': 'Anchors by def-path (resample_convolution, multiply_alpha_typed, do_convolution, '
                  'divide_alpha*); unrecognised shapes become UNDECIDED.',
          'technique': 'static analysis: dominance / must-pass-through typestate on MIR CFG, '
@@ -194,7 +209,10 @@ CLAIMS = {'C03': {'text': 'Hazards of the geometry/container layer are enumerate
                  'Y extent); ResizeAlg arms route to the right resampler with the right adaptive '
                  "flag; each built-in filter's declared support covers the cut-off its kernel "
                  'function compares with; window start/end are clamped to [0, in_size] and weights '
-                 'are normalised. The numerical error bound of the property is NOT decided.',
+                 'are normalised. The precision search of Normalizer16/32::new can reach the '
+                 'head-room of the accumulator (21 / 45 bits): a search capped at or below the '
+                 'width of the coefficient type loses the adaptation to the small weights of wide '
+                 'windows. The numerical error bound of the property is NOT decided.',
          'note': 'Kind sources are getter/field/parameter names (width/left/col vs '
                  'height/top/row).',
          'technique': 'static analysis: polynomial normal form of MIR expressions compared with '
@@ -302,7 +320,15 @@ CLAIMS = {'C03': {'text': 'Hazards of the geometry/container layer are enumerate
                  'and one component per accumulator lane, every coefficient used exactly once '
                  '(byte-level symbolic evaluation of 244 multiply operands through loads, shuffle '
                  'masks, unpacks and broadcasts; 237 followed); the source cursor advances by '
-                 'exactly the chunk size. Bit equality of the computed pixels is NOT decided.',
+                 'exactly the chunk size. In the x86 horizontal kernels byte b of the pixel stored '
+                 'for destination row i is accumulated from products of source row i, component b '
+                 '// component_size only ((row, component) tags followed from the multiply lanes '
+                 'through the accumulator arrays, shifts, packs, extracts, spill buffers, clip '
+                 'calls and store helpers; 82 of 96 stores followed). The alpha primitives are '
+                 'held to the portable routines as in C06: exact zero test as the only '
+                 'transparency guard, the rounded-division normal form, pixel/component '
+                 'provenance, no any-lane early return. Bit equality of the computed pixels is NOT '
+                 'decided.',
          'note': 'Trusted: rustc type checker/MIR, firdrv, back-end module naming '
                  '(avx2/sse4/neon/wasm32/native). Numerical equality of kernels is out of reach of '
                  'this technique.',
